@@ -51,6 +51,9 @@ pub const KINDS: &[&str] = &[
     "1,2,3,1,0",
     "key: value",
     "x",
+    // non-ASCII records whose UTF-16 code units contain the byte 0x0A, also straddling two units (xx00 0Ayy)
+    "TitleUnicode:\u{4e00}\u{0a15}\u{0a3e}",
+    "Tags: \u{4e0a} \u{010a}\u{0a00} end",
 ];
 
 const TERMS: [(&str, bool); 3] = [("\n", true), ("\r\n", true), ("\n", false)];
@@ -183,6 +186,8 @@ const MORE: &[&str] = &[
     "100,100,3000,6,0,B|200:200|300:100,2,150,2|0|0,0:0|0:0|0:0,0:0:0:0:",
     "256,192,4000,12,0,5000",
     "garbage,,",
+    "ArtistUnicode:\u{0100}\u{0a05}\u{ff00}\u{0a0a}",
+    "Source:\u{1F3B5}\u{d7ff}\u{e000}",
     "Mode: x",
     "1,2",
     "osu file format v12",
